@@ -286,7 +286,7 @@ func (ex *Exec) formatUint(t *Term) Str {
 	return out
 }
 
-var intrinsicTable map[string]intrinsicFn
+var intrinsicTable = map[string]intrinsicFn{}
 
 func mutexOp(op string) intrinsicFn {
 	return func(ex *Exec, fn *ssa.Function, args []Value) Value {
@@ -298,8 +298,7 @@ func mutexOp(op string) intrinsicFn {
 func timeStruct(sec, extra *Term) Struct { return Struct{extra, sec, Ptr{}} }
 
 func init() {
-	T := map[string]intrinsicFn{}
-	intrinsicTable = T
+	T := intrinsicTable
 	// ---- sync ----
 	T["(*sync.Mutex).Lock"] = mutexOp("Lock")
 	T["(*sync.Mutex).Unlock"] = mutexOp("Unlock")
